@@ -133,17 +133,18 @@ INT_RANGE = {'byte': (-128, 127), 'ubyte': (0, 255), 'short': (-32768, 32767), '
              'uint': (0, 2**32 - 1), 'long': (-2**63, 2**63 - 1), 'ulong': (0, 2**64 - 1)}
 
 
-def gen_enum(rng, name, style=None):
+def gen_enum(rng, name, style=None, ty=None):
     """an enum AST: {'name', 'type', 'bit_flags', 'members': [(symbol, value)]} with at least 3 members in ascending order"""
-    ty = rng.choice(list(INT_RANGE))
+    ty = ty or rng.choice(list(INT_RANGE))
     lo, hi = INT_RANGE[ty]
     style = style or rng.choice(['dense0', 'dense0', 'dense1', 'sparse', 'negative', 'bit_flags', 'top'])
     n = rng.randint(3, 7)
     if style == 'bit_flags':
         ty = rng.choice(['ubyte', 'ushort', 'uint', 'ulong', 'byte', 'int'])
         width = SCALARS[ty] * 8
-        bits = sorted(rng.sample(range(width), min(n, width)))
-        if rng.random() < 0.3: bits = list(range(min(n, width)))
+        usable = width - 1 if INT_RANGE[ty][0] < 0 else width        # the sign bit of a signed flag type is not a permitted position
+        bits = sorted(rng.sample(range(usable), min(n, usable)))
+        if rng.random() < 0.3: bits = list(range(min(n, usable)))
         return {'name': name, 'type': ty, 'bit_flags': True, 'members': [('%s_b%d' % (name, b), b) for b in bits]}
     if style == 'dense0': vals = list(range(n))
     elif style == 'dense1': vals = list(range(1, n + 1))
@@ -324,12 +325,13 @@ def evolve_pair(rng, **kw):
     # enums (permitted evolution: new enum values at the end): every enum of B keeps a proper prefix in A; enum-typed fields
     # default to a member both versions have
     # the first enum always counts up from zero and keeps at least two members in A (name-table printers), the others are random
-    B['enums'] = [gen_enum(rng, 'E%d' % i, 'dense0' if i == 0 else None) for i in range(nenums)]
+    # the second enum is a ulong enum at the top of its range: values above 2^63 that an older printer must still print as unsigned numbers
+    B['enums'] = [gen_enum(rng, 'E%d' % i, 'dense0' if i == 0 else ('top' if i == 1 else None), ty=('ulong' if i == 1 else None)) for i in range(nenums)]
     keep = {e['name']: rng.randint(2 if i == 0 else 1, len(e['members']) - 1) for i, e in enumerate(B['enums'])}
     for e in B['enums']: e['first_new'] = keep[e['name']]       # index of the first member the older version lacks (value generator aims at it)
     for tb in B['tables']:
         for ei, e in enumerate(B['enums']):
-            if ei == 0 or rng.random() < 0.7:
+            if ei <= 1 or rng.random() < 0.7:
                 sym, val = e['members'][rng.randrange(keep[e['name']])]
                 tb['fields'].insert(rng.randint(0, len(tb['fields'])),
                                     {'name': 'e%d_%s' % (len(tb['fields']), e['name'].lower()), 'kind': 'scalar', 'type': e['type'], 'enum': e['name'], 'required': False,
